@@ -644,6 +644,15 @@ def py_model(eng, st, name, A, n):
         return [(st, PyObj(z3.Const('py_' + name, Ref), stable=True))]
     if name in ('Py_TYPE', 'of', 'handle_of'):
         return [(st, PyObj(M.py_type(P(0).ref), stable=True))]
+    if name == 'PyObject_TypeCheck' and len(A) == 2:
+        # external contract (A-CAPI): isinstance-like test - the exact type or any subtype of it; no Python code runs
+        t = M.py_type(P(0).ref)
+        sub = z3.Function('py_is_proper_subtype', Ref, Ref, Bool)
+        return [(st, z3.If(z3.Or(t == P(1).ref, sub(t, P(1).ref)), z3.IntVal(1), z3.IntVal(0)))]
+    if name == 'PyType_HasFeature' and len(A) == 2:
+        # external contract (A-CAPI): a type flag (e.g. Py_TPFLAGS_LIST_SUBCLASS: the type is list or a subclass of it)
+        feat = z3.Function('py_type_has_feature', Ref, Int, Bool)
+        return [(st, z3.If(feat(P(0).ref, as_int(A[1])), z3.IntVal(1), z3.IntVal(0)))]
     if name == 'Py_IS_TYPE' and len(A) == 2:
         # external contract (A-CAPI): exact type test, no Python code runs
         return [(st, z3.If(M.py_type(P(0).ref) == P(1).ref, z3.IntVal(1), z3.IntVal(0)))]
